@@ -294,3 +294,28 @@ pub fn unparseable_class(out: &str) -> &'static str {
         "other"
     }
 }
+
+/// entry point of the libFuzzer `structured` target: C07 (meaning), C08 (idempotence) and
+/// C09 (comments) oracles on the program decoded from one choice tape
+pub fn fuzz_one(tape: &[u16]) -> crate::engine::Outcome {
+    use crate::engine::Check;
+    if tape.len() < 4 {
+        return Ok(());
+    }
+    let split = tape.len() / 2;
+    let widths = WIDTHS;
+    let case = Case {
+        prog: expr::syntactic_program(&mut Tape::new(&tape[..split]), 4, 5),
+        layout: tape[split..].to_vec(),
+        width: widths[tape[0] as usize % widths.len()],
+        cli: false,
+        text: None,
+    };
+    static KNOWN: std::sync::OnceLock<crate::engine::KnownFile> = std::sync::OnceLock::new();
+    let known = KNOWN.get_or_init(|| crate::engine::load_known("/verif/known_findings.json"));
+    let mut ctx = Ctx::new("C07", crate::engine::Tier::Quick, 1, 0, 1, 0, 1.0, crate::engine::Mode::Search, known, None, None);
+    super::c07::Meaning.run(&case, &mut ctx)?;
+    super::c08::Idempotent.run(&case, &mut ctx)?;
+    super::c09::Comments.run(&case, &mut ctx)?;
+    Ok(())
+}
